@@ -122,6 +122,8 @@ impl Idv {
 
 #[derive(Clone, Debug, Serialize, Deserialize)]
 pub enum Step {
+    /// the clock (inserted by the core's clock faults)
+    Wait { n: u32 },
     Mint { to: usize, #[serde(with = "i128s")] amt: i128 },
     Transfer { from: usize, to: usize, #[serde(with = "i128s")] amt: i128, signed: bool },
     TransferFrom { spender: usize, from: usize, to: usize, #[serde(with = "i128s")] amt: i128, signed: bool },
@@ -189,6 +191,7 @@ impl Model {
     }
     fn apply(&mut self, s: &Step) -> bool {
         match *s {
+            Step::Wait { .. } => true,
             Step::Mint { to, amt } => {
                 if !(self.idok(to) && self.cc && amt >= 0 && self.supply.checked_add(amt).is_some() && !self.trap) {
                     return false;
@@ -341,6 +344,12 @@ impl Check for RwaCheck {
     fn components(&self) -> serde_json::Value {
         serde_json::json!({"real": ["stellar_tokens::rwa::RWA::* behind a wrapper", "pausable", "fungible Base (allowances, update)"], "stub": ["Compliance (scripted can_*, durable notification counters, hook trap)", "IdentityVerifier (per-account pass/fail, recovery map)", "Wallet"]})
     }
+    fn clock_step(&self, n: u32) -> Option<Step> {
+        Some(Step::Wait { n })
+    }
+    fn clock_budget(&self) -> u64 {
+        6000000
+    }
     fn probes(&self, _prop: &str) -> std::vec::Vec<&'static str> {
         vec!["probe.transfer_from_under_closed_gate", "probe.transfer_under_closed_gate"]
     }
@@ -451,16 +460,22 @@ impl Check for RwaCheck {
         let ic = IdvClient::new(e, &idv);
         let id = e.register(Rwa, (comp.clone(), idv.clone()));
         let c = RwaClient::new(e, &id);
-        let live = w.now() + 1_000_000;
         let mut m = Model { ct: true, cc: true, ..Default::default() };
         let taddr: soroban_sdk::xdr::ScAddress = (&id).try_into().unwrap();
         let mut ev_bal: BTreeMap<usize, i128> = BTreeMap::new();
         for (i, s) in steps.iter().enumerate() {
+            if let Step::Wait { n } = s {
+                w.advance(*n);
+                st.ledgers += *n as u64;
+                st.hit("clock.advance");
+                continue;
+            }
             w.set_auth(&[]);
             let before = w.storage_digest(&[&id, &comp]);
             let gate_closed = |m: &Model, from: usize, to: usize, amt: i128| !m.gates(from, to, amt);
             let mut under_closed_gate = false;
             let (kind, got) = match s {
+                Step::Wait { .. } => unreachable!("handled above"),
                 Step::Mint { to, amt } => ("mint", c.try_mint(&a(*to), amt).is_ok()),
                 Step::Transfer { from, to, amt, signed } => {
                     if *signed {
@@ -477,6 +492,7 @@ impl Check for RwaCheck {
                     ("transfer_from", c.try_transfer_from(&a(*spender), &a(*from), &a(*to), amt).is_ok())
                 }
                 Step::Approve { owner, spender, amt } => {
+                    let live = e.ledger().max_live_until_ledger();
                     w.set_auth(&[(*owner, Inv::new(&id, "approve", (a(*owner), a(*spender), *amt, live).into_val(e)))]);
                     ("approve", c.try_approve(&a(*owner), &a(*spender), amt, &live).is_ok())
                 }
